@@ -77,7 +77,7 @@ def main():
     na = [{"property_id": pid, "reason": "check not built yet"} for pid in sorted(TEXT) if pid not in plans._REG]
     m = {
         "version": 1,
-        "setup_cmd": "true",
+        "setup_cmd": "/venv/bin/pip install --no-index --find-links /opt/veriftools/wheels --target /verif/.deps icontract >/dev/null 2>&1 || echo 'icontract not installable: the codec contracts fall back to a plain wrapper'",
         "hooks": {
             "guard": "TWISTED_MQTT_VERIF",
             "enable": "no source hooks: all observation happens at the library boundary (virtual reactor installed before import, transports, Deferred taps); bin/check exports TWISTED_MQTT_VERIF=1 for uniformity",
